@@ -254,3 +254,579 @@ Definition f_observe (o : fop) : val :=
   | FLt a b => vbool (fl_ltb a b)
   | FFuzz t u minb maxb => I (fuzz_time t u minb maxb)
   end.
+
+(* ------------------------------------------------------------------ *)
+(* workload/graph.py: Graph as two insertion-ordered dicts             *)
+(* ------------------------------------------------------------------ *)
+Definition adj := list (Z * list Z).
+Record graph := mkG { g_ch : adj; g_pa : adj }.
+Definition g_empty : graph := mkG [] [].
+
+Fixpoint al_mem (k : Z) (l : adj) : bool :=
+  match l with [] => false | (k', _) :: l' => (k' =? k) || al_mem k l' end.
+Fixpoint al_get (k : Z) (l : adj) : list Z :=            (* defaultdict(list)[k] *)
+  match l with [] => [] | (k', v) :: l' => if k' =? k then v else al_get k l' end.
+Fixpoint al_app (k x : Z) (l : adj) : adj :=             (* d[k].append(x), creating the key *)
+  match l with
+  | [] => [(k, [x])]
+  | (k', v) :: l' => if k' =? k then (k', v ++ [x]) :: l' else (k', v) :: al_app k x l'
+  end.
+Definition al_touch (k : Z) (l : adj) : adj := if al_mem k l then l else l ++ [(k, [])].   (* d[k].extend([]) *)
+Definition g_nodes (g : graph) : list Z := map fst (g_ch g).
+
+Definition g_add_child (g : graph) (n c : Z) : result graph :=
+  if al_mem n (g_ch g) then Ok (mkG (al_touch c (al_app n c (g_ch g))) (al_app c n (g_pa g))) else Err 1.
+Definition g_add_node (g : graph) (n : Z) (cs : list Z) : result graph :=
+  fold_left (fun acc c => bind acc (fun g' => g_add_child g' n c)) cs (Ok (mkG (al_touch n (g_ch g)) (g_pa g))).
+(* Graph.__init__(nodes): for node, children in nodes.items(): add_node(node, *children) *)
+Definition graph_of_mapping (m : adj) : result graph :=
+  fold_left (fun acc kv => bind acc (fun g => g_add_node g (fst kv) (snd kv))) m (Ok g_empty).
+
+Definition zmem (x : Z) (l : list Z) : bool := existsb (Z.eqb x) l.
+Definition g_parents (g : graph) (n : Z) : list Z := al_get n (g_pa g).
+Definition g_children (g : graph) (n : Z) : list Z := al_get n (g_ch g).
+Definition g_is_source (g : graph) (n : Z) : bool := match g_parents g n with [] => true | _ => false end.
+Definition g_sources (g : graph) : list Z := filter (g_is_source g) (g_nodes g).
+
+(* breadth_first() from the sources: a child joins the frontier when the node being expanded is
+   its last unvisited parent *)
+Fixpoint bfs (fuel : nat) (g : graph) (frontier visited : list Z) : result (list Z) :=
+  match frontier with
+  | [] => Ok []
+  | cur :: fr =>
+      match fuel with
+      | O => Err 91
+      | S f =>
+          let visited' := cur :: visited in
+          let new := filter (fun c => forallb (fun p => zmem p visited') (g_parents g c)) (g_children g cur) in
+          bind (bfs f g (fr ++ new) visited') (fun rest => Ok (cur :: rest))
+      end
+  end.
+Definition edge_count (g : graph) : nat := fold_left (fun a kv => (a + length (snd kv))%nat) (g_ch g) O.
+Definition g_bfs (g : graph) : result (list Z) :=
+  bfs (S (length (g_ch g) + edge_count g) * S (length (g_ch g))) g (g_sources g) [].
+
+(* topological_sort(): depth-first with marks 0 Unmarked / 1 Temporary / 2 Permanent *)
+Definition marks := list (Z * Z).
+Fixpoint mark_of (n : Z) (m : marks) : Z :=
+  match m with [] => 0 | (k, v) :: m' => if k =? n then v else mark_of n m' end.
+Fixpoint set_mark (n v : Z) (m : marks) : marks :=
+  match m with [] => [(n, v)] | (k, w) :: m' => if k =? n then (k, v) :: m' else (k, w) :: set_mark n v m' end.
+Fixpoint topo_visit (fuel : nat) (g : graph) (n : Z) (st : marks * list Z) : result (marks * list Z) :=
+  match fuel with
+  | O => Err 91
+  | S f =>
+      let m := mark_of n (fst st) in
+      if m =? 2 then Ok st
+      else if m =? 1 then Err 6
+      else
+        bind (fold_left (fun acc c => bind acc (fun s => topo_visit f g c s)) (g_children g n)
+                        (Ok (set_mark n 1 (fst st), snd st)))
+             (fun s => Ok (set_mark n 2 (fst s), snd s ++ [n]))
+  end.
+Definition g_topo (g : graph) : result (list Z) :=
+  bind (fold_left (fun acc n => bind acc (fun s => if mark_of n (fst s) =? 0 then topo_visit (S (length (g_ch g))) g n s else Ok s))
+                  (g_nodes g) (Ok (map (fun n => (n, 0)) (g_nodes g), [])))
+       (fun s => Ok (rev (snd s))).
+
+(* get_longest_path(weights): dict updates in place, first maximum, walk back while the remaining length is positive *)
+Definition zl := list (Z * Z).
+Fixpoint zl_get (k : Z) (l : zl) : option Z :=
+  match l with [] => None | (k', v) :: l' => if k' =? k then Some v else zl_get k l' end.
+Fixpoint zl_set (k v : Z) (l : zl) : zl :=
+  match l with [] => [(k, v)] | (k', w) :: l' => if k' =? k then (k', v) :: l' else (k', w) :: zl_set k v l' end.
+Definition zl_get0 k l := match zl_get k l with Some v => v | None => 0 end.
+Fixpoint first_max (best : Z * Z) (l : zl) : Z * Z :=
+  match l with [] => best | kv :: l' => if snd best <? snd kv then first_max kv l' else first_max best l' end.
+Fixpoint walk_back (fuel : nat) (w : Z -> Z) (pred : zl) (cur cum : Z) (path : list Z) : result (list Z) :=
+  if cum <=? 0 then Ok path
+  else match fuel with
+       | O => Err 91
+       | S f => match zl_get cur pred with
+                | None => Err 5
+                | Some p => walk_back f w pred p (cum - w p) (path ++ [p])
+                end
+       end.
+Definition g_longest_path (g : graph) (w : Z -> Z) : result (list Z) :=
+  bind (g_topo g) (fun order =>
+  let lpl0 := map (fun n => (n, w n)) (g_nodes g) in
+  let '(lpl, pred) :=
+    fold_left (fun st n =>
+      fold_left (fun st' c =>
+        let '(lpl, pred) := st' in
+        if zl_get0 c lpl <=? zl_get0 n lpl + w c
+        then (zl_set c (zl_get0 n lpl + w c) lpl, zl_set c n pred) else st') (g_children g n) st)
+      order (lpl0, []) in
+  match lpl with
+  | [] => Err 1                                   (* max() of an empty sequence *)
+  | kv :: rest =>
+      let '(start, cum) := first_max kv rest in
+      bind (walk_back (S (length lpl)) w pred start (cum - w start) [start]) (fun p => Ok (rev p))
+  end).
+
+(* ------------------------------------------------------------------ *)
+(* workload/jobs.py: jobs, completion time, task-graph instantiation   *)
+(* ------------------------------------------------------------------ *)
+Record job := mkJob {
+  j_id : Z; j_name : Z; j_slo : etime; j_cond : bool; j_term : bool; j_prob : fl;
+  j_runtimes : list etime       (* runtimes of the execution strategies of the job's profile, in order *)
+}.
+Record jobgraph := mkJG {
+  jg_name : Z; jg_jobs : list job; jg_graph : graph; jg_policy : policy;
+  jg_variance : option (Z * Z)
+}.
+Fixpoint find_job (i : Z) (l : list job) : option job :=
+  match l with [] => None | j :: l' => if j_id j =? i then Some j else find_job i l' end.
+
+(* max(strategies, key=lambda s: s.runtime): first maximum under EventTime.__lt__ *)
+Fixpoint slowest_from (best : etime) (l : list etime) : result etime :=
+  match l with
+  | [] => Ok best
+  | r :: l' => bind (et_ltb best r) (fun lt => slowest_from (if lt then r else best) l')
+  end.
+Definition slowest_runtime (j : job) : result etime :=
+  match j_runtimes j with [] => Err 4 | r :: l => slowest_from r l end.   (* None.runtime -> AttributeError *)
+
+Definition eps : fl := mkF 1 (-52).                       (* sys.float_info.epsilon *)
+Definition job_weight (j : job) : result Z :=
+  if fl_ltb eps (j_prob j) then bind (slowest_runtime j) (fun r => to_us r) else Ok 0.
+
+(* JobGraph.__get_completion_time: slo (or slowest runtime) summed along the longest path by slowest runtimes *)
+Definition completion_time (jg : jobgraph) : result etime :=
+  (* the weights lambda raises for a job without strategies as soon as it is evaluated *)
+  bind (fold_left (fun acc i => bind acc (fun ws =>
+          match find_job i (jg_jobs jg) with
+          | None => Err 5
+          | Some j => bind (job_weight j) (fun w => Ok (ws ++ [(i, w)]))
+          end)) (g_nodes (jg_graph jg)) (Ok [])) (fun ws =>
+  bind (g_longest_path (jg_graph jg) (fun i => zl_get0 i ws)) (fun path =>
+  fold_left (fun acc i => bind acc (fun t =>
+      match find_job i (jg_jobs jg) with
+      | None => Err 5
+      | Some j => bind (et_eqb (j_slo j) et_invalid) (fun inv =>
+                  if inv then bind (slowest_runtime j) (fun r => et_add t r) else et_add t (j_slo j))
+      end)) path (Ok et_zero))).
+
+Record task := mkTask { t_id : Z; t_job : Z; t_name : Z; t_release : etime; t_deadline : etime; t_prob : fl }.
+Record taskgraph := mkTG { tg_index : Z; tg_tasks : list task; tg_graph : graph }.
+
+Fixpoint name_lookup (nm : Z) (m : list (Z * task)) : option task :=
+  match m with [] => None | (k, t) :: m' => if k =? nm then Some t else name_lookup nm m' end.
+Fixpoint name_set (nm : Z) (t : task) (m : list (Z * task)) : list (Z * task) :=
+  match m with [] => [(nm, t)] | (k, v) :: m' => if k =? nm then (k, t) :: m' else (k, v) :: name_set nm t m' end.
+Fixpoint map_set (k : Z) (v : list Z) (m : adj) : adj :=         (* dict[k] = v *)
+  match m with [] => [(k, v)] | (k', w) :: m' => if k' =? k then (k', v) :: m' else (k', w) :: map_set k v m' end.
+
+(* flags that matter: (min_deadline, max_deadline) and the default variance *)
+Record iflags := mkIF { if_minb : Z; if_maxb : Z; if_var : Z * Z }.
+(* _flags=None: variance (0,0) unless the graph has one, bounds (0, sys.maxsize) *)
+Definition no_flags : iflags := mkIF 0 (2 ^ 63 - 1) (0, 0).
+
+(* _generate_task_graph; [next] is the first unused task id; two uniform draws are consumed *)
+Definition take_draw (us_ : list fl) : result (fl * list fl) :=
+  match us_ with u :: r => Ok (u, r) | [] => Err 90 end.
+Definition generate_task_graph (jg : jobgraph) (fl_ : iflags) (release : etime) (index : Z) (next : Z) (us_ : list fl)
+  : result (taskgraph * Z * list fl) :=
+  let var := match jg_variance jg with Some v => v | None => if_var fl_ end in
+  match jg_jobs jg with
+  | [] => Err 4                                   (* completion_time is None for an empty graph *)
+  | _ =>
+  bind (completion_time jg) (fun ct =>
+  bind (take_draw us_) (fun ud1 => let '(u1, us1) := ud1 in
+  bind (et_add release (et_fuzz ct u1 (if_minb fl_) (if_maxb fl_))) (fun d1 =>
+  bind (g_bfs (jg_graph jg)) (fun order =>
+  bind (fold_left (fun acc i => bind acc (fun st =>
+          let '(m, tasks, nid) := st in
+          match find_job i (jg_jobs jg) with
+          | None => Err 5
+          | Some j =>
+              let t := mkTask nid i (j_name j) (if g_is_source (jg_graph jg) i then release else mkET (-1) U_US) d1 (j_prob j) in
+              Ok (name_set (j_name j) t m, tasks ++ [t], nid + 1)
+          end)) order (Ok ([], [], next))) (fun st =>
+  let '(m, created, nid) := st in
+  let name_of i := match find_job i (jg_jobs jg) with Some j => j_name j | None => -1 end in
+  bind (fold_left (fun acc kv => bind acc (fun mp =>
+          match name_lookup (name_of (fst kv)) m with
+          | None => Err 5
+          | Some pt =>
+              bind (fold_left (fun acc' c => bind acc' (fun cs =>
+                      match name_lookup (name_of c) m with None => Err 5 | Some ct' => Ok (cs ++ [t_id ct']) end))
+                    (snd kv) (Ok [])) (fun cs => Ok (map_set (t_id pt) cs mp))
+          end)) (g_ch (jg_graph jg)) (Ok [])) (fun mapping =>
+  bind (graph_of_mapping mapping) (fun tgg =>
+  bind (completion_time jg) (fun ct2 =>
+  bind (take_draw us1) (fun ud2 => let '(u2, us2) := ud2 in
+  bind (et_add release (et_fuzz ct2 u2 (if_minb fl_) (if_maxb fl_))) (fun d2 =>
+  bind (et_ltb d2 et_zero) (fun neg =>
+  if neg && negb (match g_nodes tgg with [] => true | _ => false end) then Err 1     (* update_deadline refuses a negative deadline *)
+  else
+    let final := map (fun n => match find (fun t => t_id t =? n) created with
+                               | Some t => mkTask (t_id t) (t_job t) (t_name t) (t_release t) d2 (t_prob t)
+                               | None => mkTask n (-1) (-1) et_invalid d2 (mkF 0 0)
+                               end) (g_nodes tgg) in
+    Ok (mkTG index final tgg, nid, us2))))))))))))
+  end.
+
+(* generate_task_graphs: one graph per release time; draws are consumed two per graph *)
+Fixpoint gen_graphs (jg : jobgraph) (fl_ : iflags) (rels : list etime) (index next : Z) (us_ : list fl)
+  : result (list taskgraph * Z * list fl) :=
+  match rels with
+  | [] => Ok ([], next, us_)
+  | r :: rels' =>
+      bind (generate_task_graph jg fl_ r index next us_) (fun p =>
+      let '(tg, next', us') := p in
+      bind (gen_graphs jg fl_ rels' (index + 1) next' us') (fun q =>
+      let '(tgs, next'', us'') := q in Ok (tg :: tgs, next'', us'')))
+  end.
+Definition generate_task_graphs (jg : jobgraph) (fl_ : iflags) (completion : etime) (zd : list Z) (fd us_ : list fl)
+  : result (list taskgraph) :=
+  bind (get_release_times (jg_policy jg) completion zd fd) (fun rels =>
+  bind (gen_graphs jg fl_ rels 0 0 us_) (fun p => Ok (fst (fst p)))).
+
+(* ------------------------------------------------------------------ *)
+(* closed-loop re-release: JobGraph.get_next_task_graph +               *)
+(* Workload.notify_task_graph_completion as a state machine             *)
+(* ------------------------------------------------------------------ *)
+Record clstate := mkCL {
+  cl_remaining : Z;           (* JobGraph._remaining_task_graphs *)
+  cl_index : Z;               (* JobGraph._task_graph_index *)
+  cl_live : list Z;           (* released and not yet reported complete (indices of G@i) *)
+  cl_all : list Z;            (* every graph in Workload._task_graphs *)
+  cl_total : Z                (* number of graphs released so far *)
+}.
+Definition cl_init (conc n : Z) : clstate :=
+  let k := Z.to_nat (if conc <=? n then conc else n) in
+  let names := map Z.of_nat (seq 0 k) in
+  mkCL (n - Z.of_nat k) (Z.of_nat k - 1) names names (Z.of_nat k).
+Fixpoint zremove (x : Z) (l : list Z) : list Z :=
+  match l with [] => [] | y :: l' => if y =? x then l' else y :: zremove x l' end.
+(* one call of notify_task_graph_completion(G@g): ValueError for an unknown graph; otherwise the
+   next graph is released if any remains -- the code does NOT check that G@g was in flight *)
+Definition cl_notify (s : clstate) (g : Z) : result (clstate * option Z) :=
+  if negb (zmem g (cl_all s)) then Err 1
+  else
+    let live' := zremove g (cl_live s) in
+    if 0 <? cl_remaining s
+    then let i := cl_index s + 1 in
+         Ok (mkCL (cl_remaining s - 1) i (live' ++ [i]) (cl_all s ++ [i]) (cl_total s + 1), Some i)
+    else Ok (mkCL (cl_remaining s) (cl_index s) live' (cl_all s) (cl_total s), None).
+(* a run under the caller's contract: every notification is for a graph that is in flight
+   (so: exactly one completion notification per graph) *)
+Fixpoint cl_run (s : clstate) (gs : list Z) : option clstate :=
+  match gs with
+  | [] => Some s
+  | g :: gs' => if zmem g (cl_live s)
+                then match cl_notify s g with Ok (s', _) => cl_run s' gs' | Err _ => None end
+                else None
+  end.
+(* a run WITHOUT the contract (what the simulator does on CANCEL_TASK of an already cancelled graph) *)
+Fixpoint cl_run_any (s : clstate) (gs : list Z) : option clstate :=
+  match gs with
+  | [] => Some s
+  | g :: gs' => match cl_notify s g with Ok (s', _) => cl_run_any s' gs' | Err _ => None end
+  end.
+
+(* ------------------------------------------------------------------ *)
+(* monitors (decidable forms, applied to the implementation's output)  *)
+(* ------------------------------------------------------------------ *)
+Fixpoint zlist_eqb (a b : list Z) : bool :=
+  match a, b with
+  | [], [] => true
+  | x :: a', y :: b' => (x =? y) && zlist_eqb a' b'
+  | _, _ => false
+  end.
+Fixpoint nondecr_b (l : list Z) : bool :=
+  match l with
+  | a :: (b :: _) as t => (a <=? b) && nondecr_b t
+  | _ => true
+  end.
+(* observed release instants in microseconds *)
+Definition mon_fixed (s per n : Z) (obs : list Z) : bool :=
+  zlist_eqb obs (map (fun i => s + Z.of_nat i * per) (seq 0 (Z.to_nat n))).
+Definition mon_periodic (s per c : Z) (obs : list Z) : bool :=
+  zlist_eqb obs (map (fun i => s + Z.of_nat i * per) (seq 0 (Z.to_nat (range_len s c per)))).
+Definition mon_arrivals (s n : Z) (obs : list Z) : bool :=
+  (Z.of_nat (length obs) =? n) && match obs with [] => n =? 0 | x :: _ => x =? s end && nondecr_b obs.
+(* closed loop: an event log of the run, true = a graph was released, false = a graph was reported complete *)
+Fixpoint mon_closed_loop (conc n : Z) (inflight total : Z) (log : list bool) : bool :=
+  match log with
+  | [] => true
+  | true :: log' => (inflight + 1 <=? conc) && (total + 1 <=? n) && mon_closed_loop conc n (inflight + 1) (total + 1) log'
+  | false :: log' => mon_closed_loop conc n (inflight - 1) total log'
+  end.
+(* deadline of a task graph: stretch = deadline - release within the clamped integer envelope *)
+Definition mon_deadline (ct minv maxv minb maxb stretch : Z) : bool :=
+  (Z.max minb (Z.min maxb (var_lo ct minv maxv)) <=? stretch - ct) &&
+  (stretch - ct <=? Z.max minb (Z.min maxb (var_hi ct minv maxv))).
+
+(* ------------------------------------------------------------------ *)
+(* data/workload_loader.py: description -> job graphs -> task graphs   *)
+(* (the parsed YAML/JSON document is the input; names are numbered)    *)
+(* ------------------------------------------------------------------ *)
+Definition res_spec := (Z * Z * Z)%type.           (* resource name, id (0 = "any"), quantity *)
+Record d_strat := mkDS { ds_res : option (list res_spec); ds_batch : option Z; ds_runtime : option Z }.
+Record d_profile := mkDP { dp_name : option Z; dp_load : option (list d_strat); dp_exec : option (list d_strat) }.
+Record d_node := mkDN { dn_name : Z; dn_profile : option Z; dn_slo : option Z; dn_cond : bool;
+                        dn_prob : option fl; dn_term : bool; dn_children : option (list Z) }.
+Record d_graph := mkDG { dg_name : option Z; dg_nodes : option (list d_node); dg_policy : option Z;
+                         dg_start : option Z; dg_period : option Z; dg_inv : option Z; dg_conc : option Z;
+                         dg_rate : option fl; dg_coef : option fl; dg_var : option (Z * Z) }.
+(* the loader's view of the flags (None = no _flags object) *)
+Record d_flags := mkDF { df_rate : option fl; df_coef : option fl; df_period : option Z; df_inv : option Z;
+                         df_unique : bool; df_repl : Z; df_slo : option Z; df_minb : Z; df_maxb : Z }.
+
+Record strat := mkS { s_res : option (list res_spec); s_batch : Z; s_runtime : etime }.
+Record prof := mkP { pf_name : Z; pf_copy : Z; pf_exec : list strat; pf_load : list strat }.
+
+Definition mk_strats (l : list d_strat) : list strat :=
+  map (fun d => mkS (ds_res d) (match ds_batch d with Some b => b | None => 1 end)
+                    (match ds_runtime d with Some r => us_time r | None => et_zero end)) l.
+Definition mk_profile (d : d_profile) : result prof :=
+  match dp_name d with
+  | None => Err 5
+  | Some n => Ok (mkP n 0 (match dp_exec d with Some l => mk_strats l | None => [] end)
+                          (match dp_load d with Some l => mk_strats l | None => [] end))
+  end.
+(* work_profiles[name] = profile: a later profile of the same name replaces the earlier one in place *)
+Fixpoint prof_set (p : prof) (l : list prof) : list prof :=
+  match l with [] => [p] | q :: l' => if pf_name q =? pf_name p then p :: l' else q :: prof_set p l' end.
+Fixpoint prof_get (n : Z) (l : list prof) : option prof :=
+  match l with [] => None | q :: l' => if pf_name q =? n then Some q else prof_get n l' end.
+
+Definition opt_or {A} (o : option A) (d : option A) : option A := match o with Some x => Some x | None => d end.
+
+(* __create_release_policy *)
+Definition mk_policy (g : d_graph) (f : d_flags) (pol : Z) : result policy :=
+  let start := match dg_start g with Some s => us_time s | None => et_zero end in
+  let m1 := mkF (-1) 0 in
+  if pol =? 0 then
+    match opt_or (df_period f) (dg_period g) with
+    | None => Err 1
+    | Some per => Ok (mkPol PERIODIC (us_time per) (-1) m1 m1 0 start (mkF 0 0))
+    end
+  else if pol =? 1 then
+    match opt_or (df_period f) (dg_period g), opt_or (df_inv f) (dg_inv g) with
+    | Some per, Some n => Ok (mkPol FIXED (us_time per) n m1 m1 0 start (mkF 0 0))
+    | _, _ => Err 1
+    end
+  else if pol =? 2 then
+    match opt_or (df_rate f) (dg_rate g), dg_inv g with
+    | Some r, Some n => Ok (mkPol POISSON et_invalid n r m1 0 start (mkF 0 0))
+    | _, _ => Err 1
+    end
+  else if pol =? 3 then
+    match opt_or (df_rate f) (dg_rate g), opt_or (df_coef f) (dg_coef g) with
+    | Some r, Some c =>
+        match dg_inv g with
+        | Some n => Ok (mkPol GAMMA et_invalid n r c 0 start (mkF 0 0))
+        | None => Err 5                       (* job["invocations"] is read without a check *)
+        end
+    | _, _ => Err 1
+    end
+  else if pol =? 4 then
+    match dg_conc g, dg_inv g with
+    | Some c, Some n => policy_ctor (mkPol CLOSED_LOOP et_invalid n m1 m1 c start (mkF 0 0))
+    | _, _ => Err 1
+    end
+  else Err 3.
+
+(* a loaded job graph: the model's jobgraph plus the profile of every job (None = the default,
+   strategy-less profile a node without `work_profile` gets) and the graph's name (base, replica) *)
+Record ljg := mkLJG { l_base : Z; l_repl : Z; l_jg : jobgraph; l_profiles : list (Z * option prof) }.
+
+Fixpoint nm_get (n : Z) (m : list (Z * Z)) : option Z :=
+  match m with [] => None | (k, v) :: m' => if k =? n then Some v else nm_get n m' end.
+Fixpoint nm_set (n v : Z) (m : list (Z * Z)) : list (Z * Z) :=
+  match m with [] => [(n, v)] | (k, w) :: m' => if k =? n then (k, v) :: m' else (k, w) :: nm_set n v m' end.
+
+(* load_job_graph: [copy] is the suffix the deep-copied profiles carry (0 = shared originals) *)
+Definition load_job_graph (nodes : list d_node) (profiles : list prof) (copy : Z) (slo : option Z)
+                          (next_job : Z) : result (list job * graph * list (Z * option prof) * Z) :=
+  bind (fold_left (fun acc nd => bind acc (fun st =>
+          let '(jobs, g, pfs, names, jid) := st in
+          bind (match dn_profile nd with
+                | None => Ok None
+                | Some pn => match prof_get pn profiles with
+                             | None => Err 5
+                             | Some p => Ok (Some (mkP (pf_name p) copy (pf_exec p) (pf_load p)))
+                             end
+                end) (fun op =>
+          let jslo := match slo with
+                      | Some s => us_time s
+                      | None => match dn_slo nd with Some s => us_time s | None => et_invalid end
+                      end in
+          let j := mkJob jid (dn_name nd) jslo (dn_cond nd) (dn_term nd)
+                         (match dn_prob nd with Some p => p | None => mkF 1 0 end)
+                         (match op with Some p => map s_runtime (pf_exec p) | None => [] end) in
+          Ok (jobs ++ [j], mkG (al_touch jid (g_ch g)) (g_pa g), pfs ++ [(jid, op)], nm_set (dn_name nd) jid names, jid + 1))))
+        nodes (Ok ([], g_empty, [], [], next_job))) (fun st =>
+  let '(jobs, g, pfs, names, jid) := st in
+  bind (fold_left (fun acc nd => bind acc (fun g' =>
+          match nm_get (dn_name nd) names with
+          | None => Err 5
+          | Some pj =>
+              fold_left (fun acc' c => bind acc' (fun g'' =>
+                  match nm_get c names with None => Err 1 | Some cj => g_add_child g'' pj cj end))
+                (match dn_children nd with Some cs => cs | None => [] end) (Ok g')
+          end)) nodes (Ok g)) (fun g' => Ok (jobs, g', pfs, jid))).
+
+Fixpoint ljg_set (x : ljg) (l : list ljg) : list ljg :=
+  match l with
+  | [] => [x]
+  | y :: l' => if (l_base y =? l_base x) && (l_repl y =? l_repl x) then x :: l' else y :: ljg_set x l'
+  end.
+
+(* WorkloadLoader.__init__ up to Workload.from_job_graphs *)
+Definition load_workload (profiles : option (list d_profile)) (graphs : option (list d_graph)) (f : d_flags)
+  : result (list ljg) :=
+  match profiles, graphs with
+  | Some dps, Some dgs =>
+    bind (fold_left (fun acc d => bind acc (fun ps => bind (mk_profile d) (fun p => Ok (prof_set p ps)))) dps (Ok []))
+    (fun ps =>
+    bind (fold_left (fun acc dg => bind acc (fun st =>
+            let '(out, ncopy, jid) := st in
+            match dg_name dg with
+            | None => Err 1
+            | Some gname =>
+              match dg_nodes dg, dg_policy dg with
+              | Some nodes, Some pol =>
+                  bind (mk_policy dg f pol) (fun policy =>
+                  let var := match dg_var dg with Some v => v | None => (0, 0) end in
+                  let replicas := if 1 <? df_repl f then map (fun i => Z.of_nat i) (seq 1 (Z.to_nat (df_repl f))) else [0] in
+                  fold_left (fun acc' r => bind acc' (fun st' =>
+                      let '(out', ncopy', jid') := st' in
+                      let copy := if df_unique f then 0 else 2 * (ncopy' + 1) in
+                      bind (load_job_graph nodes ps copy (df_slo f) jid') (fun res =>
+                      let '(jobs, g, pfs, jid'') := res in
+                      Ok (ljg_set (mkLJG gname r (mkJG gname jobs g policy (Some var)) pfs) out', ncopy' + 1, jid''))))
+                    replicas (Ok (out, ncopy, jid)))
+              | _, _ => Err 1
+              end
+            end)) dgs (Ok ([], 0, 0))) (fun st => Ok (fst (fst st))))
+  | _, _ => Err 5
+  end.
+
+(* populate_task_graphs: every mapped job graph, in order; numpy arrays are consumed per
+   POISSON / GAMMA policy call, uniform draws two per task graph *)
+(* [completion] = None: WorkloadLoader was given a flags object and hands the INTEGER flag
+   loop_timeout to generate_task_graphs (workload_loader.py:77); PERIODIC then calls .to() on an
+   int: AttributeError *)
+Definition release_times_opt (p : policy) (completion : option etime) (zd : list Z) (fd : list fl) : result (list etime) :=
+  match completion with
+  | Some c => get_release_times p c zd fd
+  | None => match p_type p with
+            | PERIODIC => if p_n p =? 0 then Ok [] else Err 4
+            | _ => get_release_times p et_zero zd fd
+            end
+  end.
+Fixpoint populate (ls : list ljg) (fl_ : iflags) (completion : option etime) (zcalls : list (list Z)) (fcalls : list (list fl))
+                  (us_ : list fl) (next : Z) : result (list (Z * Z * list taskgraph)) :=
+  match ls with
+  | [] => Ok []
+  | l :: ls' =>
+      let jg := l_jg l in
+      let ty := p_type (jg_policy jg) in
+      let live := negb (p_n (jg_policy jg) =? 0) in
+      let is_p := match ty with POISSON => live | _ => false end in
+      let is_g := match ty with GAMMA => live | _ => false end in
+      let zd := if is_p then hd [] zcalls else [] in
+      let fd := if is_g then hd [] fcalls else [] in
+      bind (release_times_opt (jg_policy jg) completion zd fd) (fun rels =>
+      bind (gen_graphs jg fl_ rels 0 next us_) (fun p =>
+      let '(tgs, next', us') := p in
+      bind (populate ls' fl_ completion (if is_p then tl zcalls else zcalls) (if is_g then tl fcalls else fcalls)
+                     us' next') (fun rest =>
+      Ok ((l_base l, l_repl l, tgs) :: rest))))
+  end.
+
+(* data/worker_loader.py: pools -> workers -> resources; a resource name is "name" or "name:id";
+   id code 0 = "any", -1 = no id given (a fresh uuid is drawn), -2 = more than one ':' (ValueError) *)
+Definition d_worker := (Z * list res_spec)%type.
+Definition d_pool := (Z * list d_worker)%type.
+Fixpoint res_set (r : res_spec) (l : list res_spec) : list res_spec :=
+  match l with
+  | [] => [r]
+  | q :: l' => let '(n, i, _) := q in let '(n', i', _) := r in
+               if (n =? n') && (i =? i') && negb (i =? -1) then (n, i, snd r) :: l' else q :: res_set r l'
+  end.
+Definition load_worker (w : d_worker) : result d_worker :=
+  bind (fold_left (fun acc r => bind acc (fun rs => if snd (fst r) =? -2 then Err 1 else Ok (res_set r rs))) (snd w) (Ok []))
+       (fun rs => Ok (fst w, rs)).
+Definition load_pools (ps : list d_pool) : result (list d_pool) :=
+  fold_left (fun acc p => bind acc (fun out =>
+    bind (fold_left (fun acc' w => bind acc' (fun ws => bind (load_worker w) (fun w' => Ok (ws ++ [w'])))) (snd p) (Ok []))
+         (fun ws => Ok (out ++ [(fst p, ws)])))) ps (Ok []).
+
+(* ------------------------------------------------------------------ *)
+(* observation functions                                               *)
+(* ------------------------------------------------------------------ *)
+Definition vfl_raw (x : fl) : val := vfl x.
+Definition vtask (tg : taskgraph) (t : task) : val :=
+  L [I (t_name t); vet (t_release t); vet (t_deadline t); vfl (t_prob t);
+     vlist (fun c => match find (fun x => t_id x =? c) (tg_tasks tg) with Some x => I (t_name x) | None => I (-1) end)
+           (g_children (tg_graph tg) (t_id t))].
+Fixpoint nodup_b (l : list Z) : bool :=
+  match l with [] => true | x :: l' => negb (zmem x l') && nodup_b l' end.
+Definition vtg (tg : taskgraph) : val := L [I (tg_index tg); vlist (vtask tg) (tg_tasks tg)].
+Definition vtgs (l : list taskgraph) : val :=
+  L [vlist vtg l; vbool (nodup_b (flat_map (fun tg => map t_id (tg_tasks tg)) l))].
+
+(* JobGraph built the way the loader and the tests build it: add_job for every job, then add_child per edge *)
+Definition graph_of_edges (nodes : list Z) (edges : list (Z * Z)) : result graph :=
+  fold_left (fun acc e => bind acc (fun g => g_add_child g (fst e) (snd e))) edges
+            (Ok (fold_left (fun g n => mkG (al_touch n (g_ch g)) (g_pa g)) nodes g_empty)).
+Record inst_case := mkIC { ic_jobs : list job; ic_edges : list (Z * Z); ic_policy : policy; ic_var : option (Z * Z);
+                           ic_flags : iflags; ic_completion : etime;
+                           ic_zd : list Z; ic_fd : list fl; ic_us : list fl }.
+Definition ic_jobgraph (c : inst_case) : result jobgraph :=
+  bind (policy_ctor (ic_policy c)) (fun p =>
+  bind (graph_of_edges (map j_id (ic_jobs c)) (ic_edges c)) (fun g => Ok (mkJG 0 (ic_jobs c) g p (ic_var c)))).
+Definition inst_observe (c : inst_case) : val :=
+  vres vtgs (bind (ic_jobgraph c) (fun jg =>
+             generate_task_graphs jg (ic_flags c) (ic_completion c) (ic_zd c) (ic_fd c) (ic_us c))).
+(* JobGraph.completion_time (None for an empty graph -> observed as L []) *)
+Definition ct_observe (c : inst_case) : val :=
+  vres (fun x => x) (bind (ic_jobgraph c) (fun jg =>
+    match jg_jobs jg with [] => Ok (L []) | _ => bind (completion_time jg) (fun t => Ok (vet t)) end)).
+
+(* closed loop: the released graph (or none) / the error of every notification *)
+Definition cl_observe (c : Z * Z * list Z) : val :=
+  let '(conc, n, gs) := c in
+  L (snd (fold_left (fun st g =>
+        let '(s, out) := st in
+        match s with
+        | None => (None, out)
+        | Some s' => match cl_notify s' g with
+                     | Ok (s'', r) => (Some s'', out ++ [L [I 0; vopt I r; I (cl_remaining s'')]])
+                     | Err e => (Some s', out ++ [L [I 1; I e]])
+                     end
+        end) gs (Some (cl_init conc n), []))).
+
+Definition vres_spec (r : res_spec) : val := L [I (fst (fst r)); I (snd (fst r)); I (snd r)].
+Definition vstrat (s : strat) : val := L [vopt (vlist vres_spec) (s_res s); I (s_batch s); vet (s_runtime s)].
+Definition vprof (p : prof) : val := L [I (pf_name p); I (pf_copy p); vlist vstrat (pf_exec p); vlist vstrat (pf_load p)].
+Definition ptype_code (t : policy_type) : Z :=
+  match t with PERIODIC => 1 | FIXED => 2 | POISSON => 3 | GAMMA => 4 | CLOSED_LOOP => 5 | FIXED_AND_GAMMA => 6 end.
+Definition vpolicy (p : policy) : val :=
+  L [I (ptype_code (p_type p)); vet (p_period p); I (p_n p); vfl (p_rate p); vfl (p_coef p); I (p_conc p); vet (p_start p)].
+Definition vjob (l : ljg) (j : job) : val :=
+  let name_of i := match find_job i (jg_jobs (l_jg l)) with Some x => j_name x | None => -1 end in
+  L [I (j_name j); vet (j_slo j); vbool (j_cond j); vbool (j_term j); vfl (j_prob j);
+     vopt vprof (match find (fun kv => fst kv =? j_id j) (l_profiles l) with Some kv => snd kv | None => None end);
+     vlist (fun c => I (name_of c)) (g_children (jg_graph (l_jg l)) (j_id j))].
+Definition vljg (l : ljg) : val :=
+  L [I (l_base l); I (l_repl l); vpolicy (jg_policy (l_jg l));
+     match jg_variance (l_jg l) with Some v => L [I (fst v); I (snd v)] | None => L [] end;
+     vlist (fun i => match find_job i (jg_jobs (l_jg l)) with Some j => vjob l j | None => L [] end)
+           (g_nodes (jg_graph (l_jg l)))].
+
+Record load_case := mkLC { lc_profiles : option (list d_profile); lc_graphs : option (list d_graph); lc_flags : d_flags;
+                           lc_completion : option etime; lc_zcalls : list (list Z); lc_fcalls : list (list fl); lc_us : list fl }.
+Definition load_observe (c : load_case) : val :=
+  vres (fun p => L [vlist vljg (fst p);
+                    vlist (fun x => L [I (fst (fst x)); I (snd (fst x)); vtgs (snd x)]) (snd p)])
+       (bind (load_workload (lc_profiles c) (lc_graphs c) (lc_flags c)) (fun ls =>
+        bind (populate ls (mkIF (df_minb (lc_flags c)) (df_maxb (lc_flags c)) (0, 0)) (lc_completion c)
+                       (lc_zcalls c) (lc_fcalls c) (lc_us c) 0) (fun tgs => Ok (ls, tgs)))).
+Definition pools_observe (ps : list d_pool) : val :=
+  vres (vlist (fun p => L [I (fst p); vlist (fun w => L [I (fst w); vlist vres_spec (snd w)]) (snd p)])) (load_pools ps).
